@@ -74,9 +74,9 @@ var writerDrivers = []string{"Copy", "CopyBuffer2", "WriteString", "Fprintf", "o
 // reads.  It returns the optional interfaces it found on the reader.
 func driveReader(tr *vh.Trace, res *vh.Result, h, lim, slen int, driver string, rp rPolicy, wp int, after []int, salt uint64) (found []string) {
 	src := &scriptedReader{salt: salt, clamp: true, slen: slen}
-	lr := ioutil.LimitReader(src, uint64(lim))
+	lr := ioutil.LimitReader(src, realLimit(lim, 0))
 	tr.Emit(ioEvent{Op: "newr", H: h, Lim: lim, SLen: slen, RErr: "nil", WErr: "nil", Err: "none"})
-	key := fmt.Sprintf("LimitReader(n=%d) stream=%d driven by %s, r=%s, dst=%s", lim, slen, driver, rp.name, wPolicies[wp].name)
+	key := fmt.Sprintf("LimitReader(n=%s) stream=%d driven by %s, r=%s, dst=%s", limName(lim, 0), slen, driver, rp.name, wPolicies[wp].name)
 
 	src.queue = rp.make(slen)
 	src.hook = func(q readReq) {
@@ -141,7 +141,7 @@ func driveReader(tr *vh.Trace, res *vh.Result, h, lim, slen int, driver string, 
 	if strings.HasPrefix(etok, "other:") {
 		etok = "other" // io.ErrShortWrite and the like: the driver's own errors
 	}
-	tr.Emit(ioEvent{Op: "dret", H: h, Lim: lim, N: int(written), Err: etok, ELim: int(min(elim, 1<<30)), RErr: "nil", WErr: "nil"})
+	tr.Emit(ioEvent{Op: "dret", H: h, Lim: lim, N: int(written), Err: etok, ELim: symLimit(elim), RErr: "nil", WErr: "nil"})
 
 	// Direct reads afterwards: they must find the budget the driver left.
 	delivered := src.pos
@@ -157,7 +157,7 @@ func driveReader(tr *vh.Trace, res *vh.Result, h, lim, slen int, driver string, 
 			return found
 		}
 		ev := ioEvent{Op: "read", H: h, Lim: lim, SLen: slen, Buf: b, Called: o.Called, Req: o.Req, K: o.K,
-			RErr: "nil", WErr: "nil", N: o.N, Err: o.Err, ELim: int(min(o.ELim, 1<<30)), From: o.From}
+			RErr: "nil", WErr: "nil", N: o.N, Err: o.Err, ELim: symLimit(o.ELim), From: o.From}
 		if o.Called {
 			ev.RErr = o.Reqs[0].Err
 		} else {
@@ -231,9 +231,9 @@ func (c *chunkSource) Read(p []byte) (int, error) {
 // driveWriter runs one writer history through a driver.
 func driveWriter(tr *vh.Trace, res *vh.Result, h, lim int, driver string, sizes []int, wp int, salt uint64) (found []string) {
 	w := &scriptedWriter{queue: append([]readAns{}, wPolicies[wp].ans...)}
-	tw := ioutil.NewTruncatedWriter(w, uint(lim))
+	tw := ioutil.NewTruncatedWriter(w, uint(realLimit(lim, 0)))
 	tr.Emit(ioEvent{Op: "neww", H: h, Lim: lim, RErr: "nil", WErr: "nil", Err: "none"})
-	key := fmt.Sprintf("TruncatedWriter(n=%d) driven by %s chunks=%v, w=%s", lim, driver, sizes, wPolicies[wp].name)
+	key := fmt.Sprintf("TruncatedWriter(n=%s) driven by %s chunks=%v, w=%s", limName(lim, 0), driver, sizes, wPolicies[wp].name)
 	supplied := 0
 	supply := func(n int) {
 		if n > 0 {
@@ -329,13 +329,17 @@ func recordDrivers(tr *vh.Trace, res *vh.Result, h0 int) (histories int, optiona
 		}
 	}
 	h := h0
-	lims := []int{0, 2, 3}
+	lims := []int{0, 2, 3, hugeBase + 4, hugeBase + 2}
 	if thorough {
-		lims = []int{0, 1, 2, 3, 5, 8}
+		lims = []int{0, 1, 2, 3, 5, 8, hugeBase, hugeBase + 1, hugeBase + 2, hugeBase + 3, hugeBase + 4}
 	}
 	for _, lim := range lims {
-		for _, slen := range []int{max(lim-1, 0), lim, lim + 2} {
-			if !thorough && slen < lim {
+		slens := []int{max(lim-1, 0), lim, lim + 2}
+		if lim >= hugeBase {
+			slens = []int{5} // an extreme limit: the stream always ends first
+		}
+		for _, slen := range slens {
+			if !thorough && slen < lim && lim < hugeBase {
 				continue
 			}
 			for _, drv := range readerDrivers {
@@ -355,9 +359,9 @@ func recordDrivers(tr *vh.Trace, res *vh.Result, h0 int) (histories int, optiona
 		}
 	}
 	chunkings := [][]int{{4}, {1, 2, 3}, {5, 5}, {2, 0, 2}}
-	wlims := []int{0, 1, 3, 6}
+	wlims := []int{0, 1, 3, 6, hugeBase + 4, hugeBase + 2}
 	if thorough {
-		wlims = []int{0, 1, 2, 3, 4, 6, 11}
+		wlims = []int{0, 1, 2, 3, 4, 6, 11, hugeBase, hugeBase + 1, hugeBase + 2, hugeBase + 3, hugeBase + 4}
 	}
 	for _, lim := range wlims {
 		for _, drv := range writerDrivers {
@@ -375,11 +379,14 @@ func recordDrivers(tr *vh.Trace, res *vh.Result, h0 int) (histories int, optiona
 		nr = 600
 	}
 	for i := 0; i < nr; i++ {
-		lim := []int{0, 1, 7, 100, 5000, 40000, 100000}[rng.IntN(7)] + rng.IntN(3)
+		lim := []int{0, 1, 7, 100, 5000, 40000, 100000, hugeBase}[rng.IntN(8)] + rng.IntN(3)
 		if i%2 == 0 {
 			slen := max(lim+rng.IntN(7)-3, 0)
 			if rng.IntN(4) == 0 {
 				slen = lim * 2
+			}
+			if lim >= hugeBase {
+				slen = rng.IntN(100000)
 			}
 			var ans []readAns
 			for k := rng.IntN(12); k > 0; k-- {
@@ -399,13 +406,24 @@ func recordDrivers(tr *vh.Trace, res *vh.Result, h0 int) (histories int, optiona
 			for k := 1 + rng.IntN(4); k > 0; k-- {
 				after = append(after, []int{0, 1, 5, 70000}[rng.IntN(4)])
 			}
-			note(driveReader(tr, res, h, lim, slen, readerDrivers[rng.IntN(len(readerDrivers))], rp, rng.IntN(len(wPolicies)), after, salt+uint64(h)))
+			drv := readerDrivers[rng.IntN(len(readerDrivers))]
+			if strings.HasPrefix(drv, "CopyBuffer") {
+				// tiny copy buffers: keep the stream short (one event per byte)
+				slen = rng.IntN(60)
+			}
+			note(driveReader(tr, res, h, lim, slen, drv, rp, rng.IntN(len(wPolicies)), after, salt+uint64(h)))
 		} else {
 			var sizes []int
 			for k := 1 + rng.IntN(6); k > 0; k-- {
-				sizes = append(sizes, []int{1, 2, 9, 300, 33000, lim + 1}[rng.IntN(6)])
+				sizes = append(sizes, []int{1, 2, 9, 300, 33000, min(lim, 100000) + 1}[rng.IntN(6)])
 			}
-			note(driveWriter(tr, res, h, lim, writerDrivers[rng.IntN(len(writerDrivers))], sizes, rng.IntN(len(wPolicies)), salt+uint64(h)))
+			drv := writerDrivers[rng.IntN(len(writerDrivers))]
+			if strings.HasPrefix(drv, "CopyBuffer") {
+				for k := range sizes {
+					sizes[k] = min(sizes[k], 40)
+				}
+			}
+			note(driveWriter(tr, res, h, lim, drv, sizes, rng.IntN(len(wPolicies)), salt+uint64(h)))
 		}
 		h++
 	}
